@@ -288,6 +288,84 @@ def kf_demo_cases(with_k4=True):
     return cases
 
 
+# ---- coverage-guided campaigns (thorough tier) ---------------------------------------------------------
+def run_fuzz(which):
+    def run(ctx, shard, nshards, seed, budget):
+        import os
+        import re
+        import shutil
+        import subprocess
+        import sys
+        import tempfile
+
+        from .. import VERIF_DIR
+
+        base = os.path.join(VERIF_DIR, ".scratch")
+        os.makedirs(base, exist_ok=True)
+        work = tempfile.mkdtemp(prefix="vf-fuzz-%s-%d-" % (which, shard), dir=base)
+        corpus, out = os.path.join(work, "corpus"), os.path.join(work, "out")
+        os.makedirs(corpus)
+        try:
+            # even shards start from an empty corpus, odd shards from generated valid inputs
+            if shard % 2:
+                if which == "pe":
+                    i = 0
+                    for pe64 in (False, True):
+                        for nsec in (1, 2, 3):
+                            for lf in (0x40, 0x80, 0x100):
+                                with open(os.path.join(corpus, "pe%d" % i), "wb") as f:
+                                    f.write(S.make_pe(e_lfanew=lf, nsec=nsec, sec_sizes=(0x200,) * nsec, pe64=pe64))
+                                i += 1
+                else:
+                    for i, t in enumerate(S.PAYLOADS + [b"atob('aHR0cDovL2EuY29tLw==')", b"cmd /c e^cho a", b"powershell -e ZQBjAGgAbwAgAGIAZQBlAA==", b"&#65;&#66;&#67;&#68;&#69;"]):
+                        with open(os.path.join(corpus, "s%d" % i), "wb") as f:
+                            f.write(t)
+            args = ["-max_total_time=%d" % budget, "-seed=%d" % (seed * 100 + shard + 1), "-print_final_stats=1", "-max_len=%d" % (8192 if which == "pe" else 2048), "-timeout=60", "-rss_limit_mb=3000"]
+            if which == "scan":
+                dpath = os.path.join(work, "tokens.dict")
+                with open(dpath, "w") as f:
+                    for t in S.TOK:
+                        f.write('"' + "".join("\\x%02x" % c for c in t) + '"\n')
+                args.append("-dict=" + dpath)
+            p = subprocess.run([sys.executable, "-m", "vf.fuzz_target", which, out, corpus] + args, cwd=VERIF_DIR, capture_output=True, text=True, timeout=budget + 300)
+            m = re.search(r"stat::number_of_executed_units:\s*(\d+)", p.stderr)
+            execs = int(m.group(1)) if m else 0
+            m2 = re.findall(r"cov: (\d+)", p.stderr)
+            ctx.bulk(execs, execs // 2, {"fuzz:%s:executions" % which: execs})
+            ctx.notes["fuzz_%s_cov_edges_max" % which] = int(m2[-1]) if m2 else 0
+            if not execs:
+                ctx.errors.append("atheris campaign produced no executions: " + p.stderr[-600:])
+            if os.path.isdir(out):
+                for fn in sorted(os.listdir(out)):
+                    if fn.endswith(".bin"):
+                        data = open(os.path.join(out, fn), "rb").read()
+                        case = {"data": data, "depth": None}
+                        o = check_scan(case) if which == "scan" else check_pe_direct(case)
+                        o.label("fuzz:%s:bucket" % which)
+                        ctx.record(case, o)
+            for fn in sorted(os.listdir(corpus))[:3]:
+                ctx.sample({"fuzz_corpus_entry": open(os.path.join(corpus, fn), "rb").read()[:120]})
+        finally:
+            shutil.rmtree(work, ignore_errors=True)
+
+    return run
+
+
+def check_pe_direct(case) -> Outcome:
+    from multidecoder.decoders.pe_file import find_pe_files
+
+    o = Outcome()
+    try:
+        hits = find_pe_files(case["data"])
+    except Exception as e:
+        return o.violate(exc_key(e), {"error": repr(e)[:200]})
+    for h in hits:
+        if not (0 <= h.start <= h.end <= len(case["data"])):
+            o.violate("pe:span-out-of-bounds", {"start": h.start, "end": h.end, "len": len(case["data"])})
+    o.nontrivial = bool(hits)
+    return o
+
+
 def units(tier):
     q = tier == "quick"
     return [
@@ -298,4 +376,11 @@ def units(tier):
         Unit("analyzers", "hyp", check=check_analyzers, strategy=analyzer_cases, budget=40000 if q else 600000),
         Unit("edges", "custom", check=check_scan, run=run_edges, budget=1, scalable=False),
         Unit("kf_demo", "fixed", check=check_scan, cases=(lambda: kf_demo_cases(with_k4=not q))),
-    ]
+    ] + (
+        []
+        if q
+        else [
+            Unit("fuzz_pe", "custom", check=check_pe_direct, run=run_fuzz("pe"), budget=240, shards=8, scalable=False),
+            Unit("fuzz_scan", "custom", check=check_scan, run=run_fuzz("scan"), budget=240, shards=8, scalable=False),
+        ]
+    )
